@@ -139,6 +139,158 @@ func ObserveInt(label string, v int64) {
 }
 func ObserveBool(label string, v bool) { Observed = append(Observed, fmt.Sprintf("%s=%v", label, v)) }
 
+// ---------------------------------------------------------------------------
+// Cooperative threads with a solver-chosen schedule.
+//
+// Go registers a thread; RunThreads runs all registered threads to completion
+// one at a time. Control changes hands only at Yield / WaitUntil (the
+// instrumented sync primitives in zzsync call them before every operation) and
+// at thread exit. Whenever more than one thread can run, the next one is
+// Choose(n): in the engine a solver variable, so that the explorer covers
+// every schedule within the preemption bound; natively a tape value, so that a
+// schedule found by the solver is forced on the compiled code.
+//
+// This code is itself interpreted by the engine (go statements and channels
+// run on real goroutines, handing a baton), so both sides execute one and
+// the same scheduler.
+
+type thread struct {
+	id       int
+	f        func()
+	resume   chan struct{}
+	cond     func() bool
+	started  bool
+	done     bool
+	panicked bool
+	panicVal interface{}
+}
+
+var (
+	threads   []*thread
+	curThread *thread
+	back      chan struct{}
+	// Switches counts the context switches of the last RunThreads.
+	Switches int
+)
+
+// Go registers f as a thread of the next RunThreads call.
+func Go(f func()) {
+	threads = append(threads, &thread{id: len(threads), f: f, resume: make(chan struct{})})
+}
+
+// ThreadID is the index of the running thread, -1 outside RunThreads.
+func ThreadID() int {
+	if curThread == nil {
+		return -1
+	}
+	return curThread.id
+}
+
+// Yield is a scheduling point.
+func Yield() {
+	t := curThread
+	if t == nil {
+		return
+	}
+	back <- struct{}{}
+	<-t.resume
+}
+
+// WaitUntil blocks the running thread until c holds. c is evaluated by the
+// scheduler between steps and must not yield.
+func WaitUntil(c func() bool) {
+	if c() {
+		return
+	}
+	t := curThread
+	if t == nil {
+		Fail("deadlock: blocking wait outside RunThreads would never return")
+	}
+	t.cond = c
+	Cover("sched:blocked")
+	back <- struct{}{}
+	<-t.resume
+}
+
+func threadMain(t *thread) {
+	defer func() {
+		if r := recover(); r != nil {
+			t.panicked = true
+			t.panicVal = r
+		}
+		t.done = true
+		back <- struct{}{}
+	}()
+	t.f()
+}
+
+// RunThreads runs the registered threads under every schedule the solver can
+// choose with at most bound preemptions (bound < 0: unbounded). A preemption
+// is a switch away from a thread that could have continued; switches at
+// blocking waits and thread exits are free. It fails with "deadlock" when
+// threads remain and none can run.
+func RunThreads(bound int) {
+	ts := threads
+	threads = nil
+	back = make(chan struct{})
+	Switches = 0
+	var cur *thread
+	preempt := 0
+	for {
+		var runnable []*thread
+		alive := 0
+		curRunnable := false
+		for _, t := range ts {
+			if t.done {
+				continue
+			}
+			alive++
+			if t.cond == nil || t.cond() {
+				runnable = append(runnable, t)
+				if t == cur {
+					curRunnable = true
+				}
+			}
+		}
+		if alive == 0 {
+			break
+		}
+		if len(runnable) == 0 {
+			curThread = nil
+			Fail(fmt.Sprintf("deadlock: %d thread(s) blocked forever", alive))
+		}
+		var pick *thread
+		switch {
+		case curRunnable && bound >= 0 && preempt >= bound:
+			pick = cur
+		case len(runnable) == 1:
+			pick = runnable[0]
+		default:
+			pick = runnable[Choose(len(runnable))]
+			if curRunnable && pick != cur {
+				preempt++
+			}
+		}
+		if cur != nil && pick != cur {
+			Switches++
+		}
+		cur = pick
+		pick.cond = nil
+		curThread = pick
+		if !pick.started {
+			pick.started = true
+			go threadMain(pick)
+		} else {
+			pick.resume <- struct{}{}
+		}
+		<-back
+		curThread = nil
+		if pick.panicked {
+			panic(pick.panicVal)
+		}
+	}
+}
+
 // Native reports whether the harness runs compiled (true) or in the engine.
 // Only for diagnostics; harness logic must not depend on it.
 func Native() bool { return true }
